@@ -100,8 +100,18 @@ package packetio
 //@   loop 1 invariant [fits] !b.closed && len(packet) < 65536 && !(b.limitCount > 0 && b.count >= b.limitCount) &&
 //@            !(b.limitSize > 0 && b.sz() + 2 + len(packet) > b.limitSize)
 
+// read deadline (C10): rdExpired = the deadline's Done channel was already closed when Read looked at it first,
+// rdLast = the Done channel Read looked at last.
+//@ ghost global rdExpired bool
+//@ ghost global rdLast mathint
+
 //@ func (b *Buffer) Read(packet []byte) (n int, err error)
-//@   modifies packet[*]
+//@   requires b.readDeadline != nil
+//@   modifies packet[*], rdExpired, rdLast
+//@   ghost after Done#1: rdExpired = closed(result$); rdLast = result$
+//@   ghost after Done#2: rdLast = result$
+//@   ensures [deadline.persist] rdExpired ==> n == 0 && typeis(err, *netError)
+//@   ensures [deadline.nospurious] typeis(err, *netError) ==> n == 0 && closed(rdLast)
 //@   ensures [ok] err == nil ==> n == atlock(b.plen(b.rd)) && n <= len(packet)
 //@   ensures [short] err == io.ErrShortBuffer ==> n == len(packet) && n < atlock(b.plen(b.rd))
 //@   ensures [bytes] (err == nil || err == io.ErrShortBuffer) ==> atlock(b.count) > 0 &&
@@ -114,6 +124,11 @@ package packetio
 //@   ghost at unlock when b.count == atlock(b.count) - 1: b.R = b.end[b.rd]; b.rd = b.rd + 1
 //@   loop 1 invariant [unlocked] !held(b.mutex)
 //@   loop 1 invariant [untouched] forall i mathint :: {packet[i]} 0 <= i && i < len(packet) ==> packet[i] == old(packet[i])
+
+//@ func (b *Buffer) SetReadDeadline(t time.Time) (err error)
+//@   requires b.readDeadline != nil
+//@   modifies lastUntil
+//@   ensures [nil] err == nil
 
 //@ func (b *Buffer) Close() (err error)
 //@   ensures [nil] err == nil
@@ -135,4 +150,5 @@ package packetio
 //@            b.wr == atlock(b.wr) && b.rd == atlock(b.rd) && b.G == atlock(b.G) && b.start == atlock(b.start) && b.end == atlock(b.end) && b.closed == atlock(b.closed)
 
 //@ property C06: NewBuffer, Buffer.grow, Buffer.Write, Buffer.Read, Buffer.Close, Buffer.size, Buffer.available
+//@ property C10: Buffer.Read, Buffer.SetReadDeadline
 //@ property C07: NewBuffer, Buffer.size, Buffer.available, Buffer.grow, Buffer.Write, Buffer.Read, Buffer.Count, Buffer.Size, Buffer.SetLimitCount, Buffer.SetLimitSize, Buffer.Close
